@@ -96,13 +96,17 @@ def run_unit(A, unit, rep, tier):
     for mu in ("obj",):
         b, g = A.graph(cls, "_save_to_buffer", "root", mu)
         rep.context(g.label, True)
-        ent = [n.id for n in live(g) if n.kind == "cs_write" and n["name"] == "_buffer" and n["op"] in ("setitem",) ] + \
-              [n.id for n in live(g) if n.kind == "cs_read" and n["name"] == "_buffer" and n["op"] == "getitem" and n["target"].kind == "cattr"]
+        # the entry must end up holding (an encoding of / a reference to) THIS object's current data: operations
+        # that do not load first (root reset/clear) work on data that is not the container another object stored
+        ent = [n.id for n in live(g) if n.kind == "cs_write" and n["name"] == "_buffer" and n["op"] == "setitem" and not n.in_extent("_flush_buffer")
+               and n["value"] is not None and any(x.kind == "data" and x.args[0].args[2] == "T" for x in n["value"].walk())]
         w = g.must_pass(g.entry, [g.exit], ent)
         if w is None and ent:
-            rep.ok("C05.f", f"C05.f {g.label}: every path creates or updates the file's buffer entry")
+            rep.ok("C05.f", f"C05.f {g.label}: on every path the file's buffer entry receives this object's current data")
         else:
-            rep.fail("C05.f", norm_key("C05.f", A.model.lookup(cls, "_save_to_buffer")[1].func.qualname), "_save_to_buffer can return without the buffer holding an entry for the file", g.witness(w or []), g.label)
+            rep.fail("C05.f", norm_key("C05.f", A.model.lookup(cls, "_save_to_buffer")[1].func.qualname),
+                     "_save_to_buffer can return without the buffer entry holding this object's current data (it relies on the entry already being this object's container, which does not hold for "
+                     "operations that do not load first when another object on the same file created the entry): the write is lost", g.witness(w or []), g.label)
 
 
 def check_contexts(A, rep):
